@@ -150,6 +150,12 @@ def worker(sh):
                 mask = (1 << l) - 1 if sig else rng.getrandbits(l) if l else 0
             lines.append('gen %d %d %d %d' % (l, sig, mask, rng.getrandbits(40)))
             meta.append((l, sig, mask))
+    # objects in which some elements ARE the group identity (three internal representations), alone and in combination
+    for k in range(sh.pick(3, 16)):
+        l = rng.choice([1, 2, 3, 5])
+        sel = (1 << ((sh.index * 3 + k) % 13)) if k % 2 == 0 else (rng.getrandbits(13) or 1)
+        lines.append('gen %d %d %d %d 0 %d' % (l, rng.randrange(2), rng.getrandbits(l), rng.getrandbits(40), sel | (rng.randrange(3) << 16)))
+        meta.append((l, int(lines[-1].split()[2]), int(lines[-1].split()[3])))
     if sh.index == 1:
         # free slots with indices >= 256 (needs l > 256): every slot from 64 upwards stays free
         lines.append('gen 300 1 %d %d 1' % (rng.getrandbits(64), rng.getrandbits(40)))
@@ -193,6 +199,9 @@ def worker(sh):
                 if kind == 'wsk' and nfree < 300 - 64:
                     sh.violation('marshal:wsk:high-slots', 'key with all slots >= 64 free lists only %d free slots' % nfree, {'line': line})
             ident = '%s/%s l=%d sig=%d free=%d' % (kind, 'compressed' if c else 'uncompressed', l, sig, nfree)
+            idsub = len(line.split()) > 6
+            if idsub:
+                ident += ' identity-substituted(sel=0x%x)' % (int(line.split()[6]) & 0xffff)
 
             def fail(aspect, msg):
                 sh.violation('marshal:%s:%s' % (kind, aspect), '%s [%s] (%s)' % (msg, ident, line), {'line': line, 'record': {k: (v if k != 'bytes' else v.hex()[:200]) for k, v in d.items()}})
@@ -228,6 +237,9 @@ def worker(sh):
                 fail('canonical', str(ex))
                 layout = []
             sh.event('roundtrip:%s' % kind, '%s/l%d/sig%d/free%d' % ('c' if c else 'u', min(l, 9), sig, min(nfree, 9)))
+            if idsub:
+                nid = sum(1 for tag, off, n, expb, mb in layout if tag in ('1', '2') and expb[0] & 0x40)
+                sh.event('roundtrip-with-identity-elements:%s' % kind, '%s/%d' % ('c' if c else 'u', min(nid, 3)))
             if sh.index == 0:
                 sh.sample({'object': ident, 'len': len(data), 'first_bytes': data[:24].hex()}, limit=5)
             # stage 2: single-element corruptions of this valid buffer
@@ -270,6 +282,10 @@ def worker(sh):
             if how.startswith('valid:'):
                 if kv.get('accepted') != '1':
                     sh.violation('valid-rejected:%s:%s' % (kind, how[6:]), 'validating unmarshal rejected a buffer whose G%s element at offset %d is the identity encoding [%s]' % (tag, off, ident), {'line': line[:2000]})
+                elif kv.get('resame') != '1':
+                    # the accepted object contains the group identity: marshalling it again must reproduce the identity encoding
+                    sh.violation('roundtrip:%s:identity-element' % kind, 'marshal(unmarshal(buffer)) differs from the buffer when the G%s element at offset %d is the identity [%s, %s]'
+                                 % (tag, off, ident, 'compressed' if c else 'uncompressed'), {'line': line[:2000]})
                 sh.event('corrupt:%s' % kind, '%s/%s' % (how, 'c' if c else 'u'))
                 continue
             if kv.get('accepted') == '1':
